@@ -290,6 +290,10 @@ def _bitvec(t, path, w, depth):
         return [(t[1] >> i) & 1 for i in range(t[2])]
     if k == "w":
         inner = t[1]
+        if isinstance(inner, tuple) and inner and inner[0] in ("w", "bin", "un", "cast", "int"):
+            # a width annotation around a structured term (or another annotation): the bits of that term
+            bv_ = bitvec(inner, path, depth + 1)
+            return (list(bv_) + [0] * w)[:w]
         a = path.assume.get(inner)
         if a is not None:
             return list(a)[:w] + [0] * max(0, w - len(a))
@@ -452,6 +456,11 @@ def _bitvec(t, path, w, depth):
                 if op == "MulOvf":
                     if av[1] * bw[1] <= mask(wbits):
                         return [0] + [0] * (bits - 1)
+            elif av[0] == av[1] and bw[0] == bw[1] and wbits:
+                # signed, both operands known: exact
+                sa_, sb_ = to_signed(av[0], wbits), to_signed(bw[0], wbits)
+                r_ = sa_ + sb_ if op == "AddOvf" else sa_ - sb_ if op == "SubOvf" else sa_ * sb_
+                return [int(not (-(1 << (wbits - 1)) <= r_ < (1 << (wbits - 1))))] + [0] * (bits - 1)
             return [None] + [0] * (bits - 1)
         return [None] * bits
     # opaque leaf without a width annotation
@@ -1058,6 +1067,11 @@ class Interp:
             return INT(0, 8)
         if is_int(a) and not is_int(b) and op in ("Add", "Mul", "BitAnd", "BitOr", "BitXor", "Eq", "Ne"):
             a, b = b, a  # canonical: constant on the right for commutative ops
+        if signed and op in ("AddOvf", "SubOvf", "MulOvf", "Lt", "Le", "Gt", "Ge", "Div", "Rem") and not is_int(a):
+            # signedness is a property of the operation, recorded per term: keep the signed term structurally distinct
+            # from its unsigned twin over the same operands (a transparent extra width wrapper on the left operand), or
+            # `(d as i64).overflowing_add(s as i64)` would turn `d.overflowing_add(s)` signed as well
+            a = ("w", a, width_of(a) or bits)
         t = ("bin", op, a, b, bits)
         if signed:
             path.tags[("signed", t)] = True
